@@ -7,6 +7,17 @@ from .cv_checks import KF_EXC, KF_NOLA, KF_WIDE, KF_NESTED
 
 
 KF_SECANCHOR = 'sec-codon-touched-by-anchor-unlabelled-stop'
+KF_NOLA_MISC = 'no-lookahead-enzyme-miscleaved-missing'
+
+
+def all_miscleaved(enz: str, peptides) -> bool:
+    """every peptide has a cleavage site of the enzyme's rule strictly inside"""
+    import re as _re
+    rule = cv_checks.rule_tables()[enz]
+    for p in peptides:
+        if not any(0 < m.end() < len(p) for m in _re.finditer(rule, p)):
+            return False
+    return True
 
 
 def sec_anchor_only(r, missing) -> bool:
@@ -75,7 +86,11 @@ def judge(ctx, res, stream):
                 cv_checks.replay_of(r, kind='missing', missing=sorted(core_missing)),
                 finding_key=KF_WIDE if cv_checks.wide_lookahead(r['desc']['kw']['cleavage_rule'])
                 else (KF_NESTED if cv_checks.has_nested(r)
-                      else (KF_SECANCHOR if sec_anchor_only(r, sorted(core_missing)) else None)))
+                      else (KF_SECANCHOR if sec_anchor_only(r, sorted(core_missing))
+                            else (KF_NOLA_MISC if (not cv_checks.has_lookahead(r['desc']['kw']['cleavage_rule'])
+                                                   and not (real - (SA | SB))
+                                                   and all_miscleaved(r['desc']['kw']['cleavage_rule'], core_missing))
+                                  else None))))
         elif exc_missing:
             ctx.add_violation(
                 f'peptide(s) {sorted(exc_missing)[:3]} missing: cleavage-exception context split across '
